@@ -33,7 +33,24 @@ def impl_ctcq(n):
         left_right_features_from_simple_constraint, split_constraint)
     from flamapy.core.models.ast import AST
     root = spec.build_node(n)
-    c = Constraint("k", AST(root))
+    # a third of the constraints are fresh objects; the others were another constraint first, were queried, and got this
+    # tree through the setter of Constraint.ast or through the root field of their AST
+    import zlib
+    import live
+    h = zlib.crc32(repr(n).encode("utf8", "surrogatepass"))
+    if h % 3 == 0:
+        c = Constraint("k", AST(root))
+    else:
+        T, OP = spec.T, spec.OP
+        first = [OP("REQUIRES", T("A"), T("B")), OP("EXCLUDES", T("A"), T("B")), OP("NOT", T("A")),
+                 OP("GREATER", OP("ADD", T("A"), T("B")), (("i", 1), None, None)),
+                 OP("OR", OP("AND", T("A"), T("B")), OP("XOR", T("C"), T("A")))][(h // 3) % 5]
+        c = Constraint("k", AST(spec.build_node(first)))
+        live.warm_ctc(c)
+        if h % 3 == 1:
+            c.ast = AST(root)
+        else:
+            c.ast.root = root
     out = [
         tag("str", str(c.ast)),
         tag("pretty", _r(c.ast.pretty_str)),
